@@ -1,7 +1,7 @@
 T = "GeomV.C02."
 CFG = {
     "id": "C02",
-    "lean_modules": ["GeomV.C02.Proofs", "GeomV.C02.Ties", "GeomV.C02.ProofsFloat", "GeomV.C02.IEEE", "GeomV.C02.TiesLoops", "GeomV.C02.ProofsIEEE", "GeomV.C02.ProofsNaN"],
+    "lean_modules": ["GeomV.C02.Proofs", "GeomV.C02.Ties", "GeomV.C02.ProofsFloat", "GeomV.C02.IEEE", "GeomV.C02.TiesLoops", "GeomV.C02.ProofsIEEE", "GeomV.C02.ProofsNaN", "GeomV.C02.ProofsXF"],
     "exe": "geomv_c02",
     "go_cmd": "c02",
     "stages": ["go:gen", "go:impl", "lean:judge"],
@@ -17,7 +17,8 @@ CFG = {
                                  "C02_tie_MultiLineString_Within", "C02_tie_Polygon_Within",
                                  "C02_float_point_regenerated", "C02_ieee_point_exact_on_scaled_grid",
                                  "C02_ieee_ray_exact_on_scaled_grid", "C02_ieee_onSegment_exact_on_scaled_grid",
-                                 "C02_nan_query_outside", "C02_inf_query_outside", "C02_nan_vertex_ring_ignored"]],
+                                 "C02_nan_query_outside", "C02_inf_query_outside", "C02_nan_vertex_ring_ignored",
+                                 "C02_xf_finite_eq_model", "C02_xf_finite_spec"]],
     "lean_dirs": ["C02"],
     "trusted_base": [
         "Lean 4.33.0 kernel; axioms of every theorem printed by #print axioms must be within {propext, Classical.choice, Quot.sound}",
